@@ -106,12 +106,8 @@ def expectHtml (strip : Bool) (dopt : Option DocTypeT) (s : Stream) : Sexp :=
     let body := if strip then normForest .html body0 else body0
     if u == xmlNs then out "xml-namespace"
     else if !okList body0 then out "not-a-forest"
-    else if !forestUniformNs u body0 then
-      -- forests that mix namespaces: `html_roundtrip_tree_mixed_partial` (no prolog, no doctype option, strip off)
-      (if strip || dopt.isSome || ns.length != body0.length then out "mixed-namespaces"
-       else if !forestMixedOk body0 then out "mixed-namespaces-xml"
-       else if !htmlForestOk body0 then out "mixed-body-hypotheses"
-       else .list [.atom "ok", .list ((dropDoctypeNl (htmlView (assemble (forestPieces body0)))).flatMap htok)])
+    -- forests that mix namespaces: `html_roundtrip_doc_mixed_partial` / `…_mixed_strip_partial` (same right-hand side)
+    else if !forestUniformNs u body0 && !forestMixedOk body0 then out "mixed-namespaces-xml"
     else if strip && !wsDom .html body0 then out "whitespace-domain"
     else if !htmlForestOkP body then out "body-hypotheses"
     else if !dtOkOf (winDt dopt dt) || !dtNoGtOf (winDt dopt dt) then out "doctype-fields"
